@@ -83,13 +83,29 @@ def reference(case, X, y, S, spec, th_cov, th_mean, Q, use_mp=True):
     return {"mu": mu, "cov": cov, "Kqq": Kqq, "scale_mu": scale_mu, "alpha": alpha}, kappa
 
 
-def fit(X, y, noise_kw, spec, mean_kind, theta_all, keys):
+def fit(X, y, noise_kw, spec, mean_kind, theta_all, keys, preuse=None):
     cov = rk.build_kernel(spec)
     mean = rk.build_mean(mean_kind)
     with warnings.catch_warnings():
         warnings.simplefilter("ignore")
         with np.errstate(all="ignore"):
+            if preuse:
+                # the kernel and mean objects served an earlier regressor - since discarded - on data with another number of points
+                # and of spatial dimensions (objects are handed on like this by GpOptimiser, and by users fitting one model family
+                # to several data sets in turn)
+                g = np.random.Generator(np.random.PCG64(int(preuse["seed"])))
+                n_e, d_e = max(2, X.shape[0] + preuse["dn"]), max(1, X.shape[1] + preuse["dd"])
+                if not (rk.has(spec, "CP") and d_e <= max_cp_axis(spec)):
+                    try:
+                        GpRegressor(g.normal(size=(n_e, d_e)), g.normal(size=n_e), kernel=cov, mean=mean,
+                                    hyperpars=np.zeros(rk.mean_n_params(mean_kind, d_e) + rk.n_params(spec, n_e, d_e)))
+                    except np.linalg.LinAlgError:
+                        pass
             return GpRegressor(X, y, hyperpars=theta_all, kernel=cov, mean=mean, **noise_kw)
+
+
+def max_cp_axis(spec):
+    return max([spec.get("axis", 0) if spec["k"] == "CP" else 0] + [max_cp_axis(q) for q in spec.get("parts", [])])
 
 
 def nontrivial(case, kappa):
@@ -130,7 +146,7 @@ def body_posterior(case, ctx):
     ref, kappa = reference(case, X, y, S, spec, th_cov, th_mean, Q)
     tag = cls_of(case)
     try:
-        gp = fit(X.copy(), y.copy(), noise_kw, spec, case["mean"], theta_all, tag)
+        gp = fit(X.copy(), y.copy(), noise_kw, spec, case["mean"], theta_all, tag, preuse=case.get("preuse"))
         with np.errstate(all="ignore"):
             mu_c, sig_c = gp(qf)
             mu_b, cov_b = gp.build_posterior(qf)
@@ -490,8 +506,16 @@ def body_forms(case, ctx):
         ctx.event(f"{k}:{v}")
 
 
+@st.composite
+def posterior_cases(draw, max_n):
+    case = draw(gc.gp_problems(max_n=max_n, min_n=1))
+    if draw(st.integers(0, 3)) == 0:
+        case["preuse"] = {"seed": draw(st.integers(0, 10**6)), "dn": draw(st.sampled_from([-2, 0, 1, 3])), "dd": draw(st.sampled_from([0, 1, -1, 2]))}
+    return case
+
+
 SUBCHECKS = [
-    Sub("posterior", lambda t: gc.gp_problems(max_n=25 if t == "thorough" else 16, min_n=1), body_posterior, quick=1400, thorough=50000,
+    Sub("posterior", lambda t: posterior_cases(25 if t == "thorough" else 16), body_posterior, quick=1400, thorough=50000,
         shards_quick=10, shards_thorough=16,
         rule="n >= 3 and (composite / change-point kernel or non-constant mean or d >= 2 or full y_cov), kappa <= 1e10"),
     Sub("relations", lambda t: gc.gp_problems(max_n=14, max_m=3, min_n=2), body_relations, quick=700, thorough=25000,
